@@ -154,6 +154,8 @@ def write_replay(prop, v):
 
 
 def write_evidence(prop, tier, seed, level, coverage, assumptions, wall, violations):
+    if os.environ.get("VERIF_NO_EVIDENCE"):
+        return None  # developer runs on mutated trees must not overwrite committed evidence
     os.makedirs(EVIDENCE_DIR, exist_ok=True)
     ev = {
         "property_id": prop, "tier": tier, "seed": seed, "level": level,
